@@ -267,6 +267,7 @@ func solveOne(r *FuncResult, ob *Oblig, cfg solveCfg) {
 		// first: sound quantifier-free weakening (instantiation + skolemisation)
 		iscript, _ := r.Ctx.Script("", asserts, true)
 		iscript = addModel(iscript)
+		ob.InstScript = iscript
 		io := solveScript(iscript, cfg.quickS, cfg.fullS)
 		if io.status == "unsat" {
 			io.backend += "/inst"
@@ -279,7 +280,6 @@ func solveOne(r *FuncResult, ob *Oblig, cfg solveCfg) {
 				o.status = "sat"
 				o.out = io.out
 				o.backend = io.backend + "/inst-candidate"
-				ob.Script = iscript
 			}
 			o.secs += io.secs
 		}
